@@ -1298,6 +1298,18 @@ class Interp:
             return 0
         if base in ("asarray", "asanyarray", "ascontiguousarray") and len(args) == 1 and (self.is_num(args[0]) or isinstance(args[0], Vec)):
             return args[0]
+        if base == "reshape" and args and isinstance(args[0], Vec):
+            shp = args[1] if len(args) > 1 else None
+            if isinstance(shp, (list, tuple)) and len(shp) == 2 and shp[0] == 2 and shp[1] in (-1,):
+                return args[0]
+            e = AnalysisError("%s:%d reshape of a vector field to %r" % (func.qualname, ln, shp))
+            e.violation = ("VEC-LAYOUT", func.qualname, "np.reshape of a (2, n) vector field to %r (line %d) re-reads the memory row by row: it pairs (u0,u1), (u2,u3) ... instead of (u_i, v_i) -- for more than one entry the components of different faces are mixed (a single pair [u, v] happens to come out right)" % (tuple(shp) if isinstance(shp, (list, tuple)) else shp, ln),
+                           "vec-reshape", {"C03", "C13", "C15", "C16"})
+            raise e
+        if base in ("max", "amax", "min", "amin") and args and isinstance(args[0], Vec) and kwargs.get("axis", None) == 0:
+            # over the COMPONENTS of a vector field (axis 0), entry by entry: point-wise in the face / cell index
+            self._noncov((ln, "extremum over the components of a vector"))
+            return self.binary("maximum" if base in ("max", "amax") else "minimum", args[0].x, args[0].y, ln)
         if base == "sum":
             if isinstance(args[0], Vec) and kwargs.get("axis", None) == 0:
                 return d.add(args[0].x, args[0].y)
@@ -1419,6 +1431,8 @@ class GvnDomain:
     def func1(self, fn, a):
         A = self.alg
         if fn == "sqrt":
+            if a.is_zero():
+                return A.const(0)
             return A.sqrt(a)
         if fn == "abs":
             return A.abs(a)
